@@ -60,11 +60,23 @@ inductive Ctl
   | failed (e : PyErr)
   deriving Repr, Inhabited
 
-structure Cfg where
+/-- control, continuation and world: everything `enter` / `resume` / `unwind` can see -/
+structure Core where
   ctl : Ctl
   k : List Frame
   w : World
   deriving Repr, Inhabited
+
+/-- a machine configuration: the core plus the budget of every VM state (`max_ops_evaluated`) -/
+structure Cfg where
+  ctl : Ctl
+  k : List Frame
+  w : World
+  budgets : List Nat
+  deriving Repr, Inhabited
+
+def Cfg.core (c : Cfg) : Core := { ctl := c.ctl, k := c.k, w := c.w }
+def Core.withBudgets (r : Core) (b : List Nat) : Cfg := { ctl := r.ctl, k := r.k, w := r.w, budgets := b }
 
 /-! ### scopes -/
 
@@ -183,10 +195,10 @@ def safeCastInt : Val → R (Option Int)
 
 /-! ### calls -/
 
-def mkRet (v : Val) (k : List Frame) (w : World) : Cfg := { ctl := .ret v, k := k, w := w }
-def mkRaise (e : PyErr) (k : List Frame) (w : World) : Cfg := { ctl := .raise e, k := k, w := w }
+def mkRet (v : Val) (k : List Frame) (w : World) : Core := { ctl := .ret v, k := k, w := w }
+def mkRaise (e : PyErr) (k : List Frame) (w : World) : Core := { ctl := .raise e, k := k, w := w }
 
-def ofBR (r : BR) (k : List Frame) (w : World) : Cfg :=
+def ofBR (r : BR) (k : List Frame) (w : World) : Core :=
   match r with
   | .ok (v, s) => mkRet v k (w.withB s)
   | .error e => mkRaise e k w
@@ -200,7 +212,7 @@ def nextItem (h : Heap) : IterSrc → Option (List Val × IterSrc)
   | .snap [] => none
   | .snap (x :: r) => some (x, .snap r)
 
-def sortFinish (keys items : List Val) (rev dictMode : Bool) (k : List Frame) (w : World) : Cfg :=
+def sortFinish (keys items : List Val) (rev dictMode : Bool) (k : List Frame) (w : World) : Core :=
   match sortedBy w.heap keys items rev with
   | .error e => mkRaise e k w
   | .ok sorted =>
@@ -215,7 +227,7 @@ def sortFinish (keys items : List Val) (rev dictMode : Bool) (k : List Frame) (w
 mutual
 /-- call a function value with evaluated arguments.  `fuel` bounds the chain
     apply(apply(apply(…))) of host trampolines inside one step. -/
-def callVal : Nat → Val → List Val → List Frame → World → Cfg
+def callVal : Nat → Val → List Val → List Frame → World → Core
   | 0, _, _, k, w => mkRaise (.unmodelled "call-fuel") k w
   | fuel + 1, f, args, k, w =>
     match f with
@@ -330,7 +342,7 @@ def callVal : Nat → Val → List Val → List Frame → World → Cfg
     | _ => mkRaise .typeError k w
 
 /-- fetch the next element of an iteration and call `g` on it, or finish -/
-def iterNext : Nat → IterKind → Val → IterSrc → List Val → List Frame → World → Cfg
+def iterNext : Nat → IterKind → Val → IterSrc → List Val → List Frame → World → Core
   | 0, _, _, _, _, k, w => mkRaise (.unmodelled "call-fuel") k w
   | fuel + 1, kind, g, src, acc, k, w =>
     match nextItem w.heap src with
@@ -351,8 +363,11 @@ end
 
 def callFuel : Nat := 64
 
+/-- default of `SqParser.eval(..., max_ops_evaluated=100)` -/
+def defaultBudget : Nat := 100
+
 /-- `CallOp.eval` after the arguments: look the name up, then call -/
-def doCall (n : Name) (args : List Val) (vmi : Nat) (k : List Frame) (w : World) : Cfg :=
+def doCall (n : Name) (args : List Val) (vmi : Nat) (k : List Frame) (w : World) : Core :=
   match w.vm? vmi with
   | none => mkRaise (.unmodelled "vm") k w
   | some vm => match lookupName w.heap vm.scopes n with
@@ -362,7 +377,7 @@ def doCall (n : Name) (args : List Val) (vmi : Nat) (k : List Frame) (w : World)
 /-! ### the three phases of a step -/
 
 /-- dispatch on the node kind (the body of each `eval` override after `super().eval(state)`) -/
-def enter (op : Op) (vmi : Nat) (k : List Frame) (w : World) : Cfg :=
+def enter (op : Op) (vmi : Nat) (k : List Frame) (w : World) : Core :=
   match op with
   | .noop => mkRet .none k w
   | .value .none => mkRet .none k w
@@ -401,7 +416,7 @@ def buildDict (h : Heap) : List Val → List (Val × Val) → R (List (Val × Va
   | _, acc => .ok acc
 
 /-- a value came back to frame `fr` -/
-def resume (fr : Frame) (v : Val) (k : List Frame) (w : World) : Cfg :=
+def resume (fr : Frame) (v : Val) (k : List Frame) (w : World) : Core :=
   match fr with
   | .codeK [] _ => mkRet v k w
   | .codeK (l :: rest) vmi => { ctl := .ev l vmi, k := .codeK rest vmi :: k, w := w }
@@ -483,7 +498,7 @@ def resume (fr : Frame) (v : Val) (k : List Frame) (w : World) : Cfg :=
   | .tryK => mkRet v k w
 
 /-- an error passes frame `fr` -/
-def unwind (fr : Frame) (e : PyErr) (k : List Frame) (w : World) : Cfg :=
+def unwind (fr : Frame) (e : PyErr) (k : List Frame) (w : World) : Core :=
   match fr with
   | .popScopeK vmi =>
     (match w.vm? vmi with
@@ -495,23 +510,23 @@ def unwind (fr : Frame) (e : PyErr) (k : List Frame) (w : World) : Cfg :=
      | _ => mkRet .none k { w with log := .caught e.cls :: w.log })
   | _ => mkRaise e k w
 
-/-- `Op.eval`: `state.ops_evaluated += 1; if state.ops_evaluated >= state.max_ops_evaluated: raise` -/
-def charge (w : World) (vmi : Nat) : Option (World × Bool) :=
-  match w.vm? vmi with
-  | none => none
-  | some vm =>
+/-- `Op.eval`: `state.ops_evaluated += 1; if state.ops_evaluated >= state.max_ops_evaluated: raise`.
+    Returns the world with the counter advanced and whether the limit is hit. -/
+def charge (w : World) (budgets : List Nat) (vmi : Nat) : Option (World × Option Nat) :=
+  match w.vm? vmi, budgets[vmi]? with
+  | some vm, some max =>
     let vm' := { vm with ops := vm.ops + 1 }
-    some (w.setVM vmi vm', decide (vm'.ops ≥ vm'.max))
+    some (w.setVM vmi vm', if vm'.ops ≥ max then some max else none)
+  | _, _ => none
 
-def step (c : Cfg) : Cfg :=
+/-- one machine step on the core, given the budgets -/
+def stepCore (budgets : List Nat) (c : Core) : Core :=
   match c.ctl with
   | .ev op vmi =>
-    (match charge c.w vmi with
+    (match charge c.w budgets vmi with
      | none => { c with ctl := .raise (.unmodelled "vm") }
-     | some (w', true) =>
-       let m := (w'.vm? vmi).map (·.max) |>.getD 0
-       { c with ctl := .raise (.opsLimit m), w := w' }
-     | some (w', false) => enter op vmi c.k w')
+     | some (w', some m) => { c with ctl := .raise (.opsLimit m), w := w' }
+     | some (w', none) => enter op vmi c.k w')
   | .ret v =>
     (match c.k with
      | [] => { c with ctl := .done v }
@@ -522,6 +537,8 @@ def step (c : Cfg) : Cfg :=
      | fr :: k => unwind fr e k c.w)
   | .done _ => c
   | .failed _ => c
+
+def step (c : Cfg) : Cfg := (stepCore c.budgets c.core).withBudgets c.budgets
 
 def run : Nat → Cfg → Cfg
   | 0, c => c
@@ -536,10 +553,13 @@ def runUntil : Nat → Cfg → Cfg
   | 0, c => c
   | n + 1, c => if c.halted then c else runUntil n (step c)
 
-/-- initial configuration of one `eval` call: the names mapping lives at `namesAddr` -/
-def initCfg (w : World) (namesAddr : Nat) (budget : Nat) (ast : Op) : Cfg :=
+/-- initial configuration of one `eval` call on world `w` with VM budgets `bs` so far
+    (`bs.length = w.vms.length`):
+    the names mapping lives at `namesAddr`; a fresh VM state carrying the caller's budget -/
+def initCfg (w : World) (bs : List Nat) (namesAddr : Nat) (budget : Nat) (ast : Op) : Cfg :=
   let vmi := w.vms.length
   { ctl := .ev ast vmi, k := [],
-    w := { w with vms := w.vms ++ [{ scopes := [namesAddr], ops := 0, max := budget }] } }
+    w := { w with vms := w.vms ++ [{ scopes := [namesAddr], ops := 0 }] },
+    budgets := bs ++ [budget] }
 
 end Sq
